@@ -257,6 +257,63 @@ def apply_subst(lines, substs, log):
         out.append(l)
     return out
 
+
+# ------------------------------------------------------------------ R5: macro arm instantiation
+
+def macro_arms(item):
+    """split a macro_rules! item into [(matcher_text, transcriber_text)]"""
+    text = item.text
+    toks = lex(text)
+    # outer delimiter
+    k = next(i for i, t in enumerate(toks) if t.kind == "punct" and t.text in rustlex.OPEN and i > 2)
+    end = match_forward(toks, k)
+    arms = []
+    i = k + 1
+    while i < end:
+        t = toks[i]
+        if t.kind == "punct" and t.text in rustlex.OPEN:
+            mend = match_forward(toks, i)
+            matcher = text[toks[i].e:toks[mend].s]
+            j = mend + 1
+            while not (toks[j].kind == "punct" and toks[j].text in rustlex.OPEN): j += 1
+            tend = match_forward(toks, j)
+            arms.append((matcher, text[toks[j].e:toks[tend].s]))
+            i = tend + 1
+        else:
+            i += 1
+    return arms
+
+def instantiate_macro_fn(file, macro, arm_idx, bindings, fn_name, invocation):
+    src, items = items_of(file)
+    cands = [it for it in items if it.kind == "macro" and it.name == macro]
+    if len(cands) != 1:
+        raise GenError("anchor lost: macro %s in %s (%d matches)" % (macro, file, len(cands)))
+    arms = macro_arms(cands[0])
+    if arm_idx >= len(arms):
+        raise GenError("anchor lost: macro %s has no arm %d" % (macro, arm_idx))
+    matcher, body = arms[arm_idx]
+    metas = re.findall(r"\$(\w+)\s*:", matcher)
+    for k in bindings:
+        if k not in metas:
+            raise GenError("anchor lost: macro %s arm %d has no metavariable $%s (has %s)" % (macro, arm_idx, k, metas))
+    for k in metas:
+        if k not in bindings:
+            raise GenError("macro %s arm %d: metavariable $%s unbound" % (macro, arm_idx, k))
+    if invocation and norm(invocation) not in norm(src):
+        raise GenError("anchor lost: invocation `%s` not found in %s" % (invocation, file))
+    inst = body
+    for k, v in bindings.items():
+        inst = re.sub(r"\$%s\b" % re.escape(k), v, inst)
+    sub_items = rustlex.scan_items(inst)
+    fns = [it for it in sub_items if it.kind == "fn" and it.name == fn_name]
+    if len(fns) != 1:
+        raise GenError("anchor lost: fn %s in instantiated arm %d of %s" % (fn_name, arm_idx, macro))
+    hdr = fns[0].impl_header
+    # recover the header text with normal spacing from the instantiated text
+    impls = [it for it in sub_items if it.kind == "impl" and it.name == hdr]
+    hdr_text = re.sub(r"\s+", " ", inst[impls[0].s:impls[0].body_open].strip()) if impls else None
+    return fns[0], hdr_text, hashlib.sha256((matcher + "=>" + body).encode()).hexdigest()
+
 # ------------------------------------------------------------------ merge
 
 def parse_region(lines):
@@ -332,7 +389,7 @@ def process_unit(path, meta, update_mirror=False):
             a, b = s[len("//@@ subst "):].split("=>")
             substs.append((a.strip(), b.strip()))
             out.append(l); mirror_out.append(l); i += 1; continue
-        m = re.match(r"//@@ (fn|item|const|rawconst)\s+(.*)$", s)
+        m = re.match(r"//@@ (fn|item|const|rawconst|macrofn)\s+(.*)$", s)
         if not m:
             out.append(l); mirror_out.append(l); i += 1; continue
         kind = m.group(1)
@@ -343,7 +400,39 @@ def process_unit(path, meta, update_mirror=False):
             if j >= len(src_lines): raise GenError("%s: missing //@@ end after line %d" % (path, i + 1))
         region = src_lines[i+1:j]
         log = set()
-        if kind == "fn":
+        if kind == "macrofn":
+            # //@@ macrofn <file> | <macro> | arm <k> | a=1,b=2 | <fn> | body|stub | props .. | invocation <text>
+            file, macro, armf, bindf, name, mode = fields[0], fields[1], fields[2], fields[3], fields[4], fields[5]
+            arm_idx = int(armf.split()[1])
+            bindings = dict(kv.strip().split("=") for kv in bindf.split(",") if kv.strip())
+            props, invocation = [], None
+            for f in fields[6:]:
+                if f.startswith("props"): props = f.split()[1:]
+                if f.startswith("invocation"): invocation = f[len("invocation"):].strip()
+            item, header, arm_sha = instantiate_macro_fn(file, macro, arm_idx, bindings, name, invocation)
+            log.add("R5")
+            new_lines = rewrite_fn(item, False, log)
+            new_lines = apply_subst(new_lines, substs, log)
+            ctx, ann = parse_region(region)
+            wrap = header is not None
+            if wrap:
+                new_lines = [header + " {"] + new_lines + ["}"]
+            if mode == "stub":
+                kb = next(k for k, x in enumerate(new_lines) if x.strip() == "{")
+                new_lines = new_lines[:kb] + ["{", "    unimplemented!()", "}"] + (["}"] if wrap else [])
+                new_lines.insert(1 if wrap else 0, "#[verifier::external_body]")
+                log.add("STUB")
+            merged, exact = merge(new_lines, ctx, ann)
+            start_line = len(out) + 2
+            out.append(l); out.extend(merged); out.append("//@@ end")
+            mirror_out.append(l); mirror_out.extend(merged); mirror_out.append("//@@ end")
+            meta["functions"].append({
+                "id": "%s|%s!arm%d(%s)|%s" % (file, macro, arm_idx, bindf.replace(" ", ""), name), "unit": unit, "mode": mode, "props": props,
+                "file": file, "src_line": item.src[:item.s].count("\n") + 1,
+                "source_sha256": arm_sha, "rewrites": sorted(log), "gen_lines": [start_line, len(out)],
+                "mirror_in_sync": exact, "contract": contract_of(merged),
+            })
+        elif kind == "fn":
             file, header, name, mode = fields[0], fields[1], fields[2], fields[3]
             props = []
             nth = None
